@@ -92,6 +92,9 @@ const (
 	_listFixedUntypedLenTagMin = byte(0x78)
 	_listFixedUntypedLenTagMax = byte(0x7f)
 	_listFixedUntypedLenMax    = _listFixedUntypedLenTagMax - _listFixedUntypedLenTagMin
+
+	// largest list length allocated up front on the word of the stream
+	_listPreallocMax = 1024
 )
 
 func listFixedTypedLenTag(tag byte) bool {
@@ -250,7 +253,17 @@ func (d *Decoder) readTypedList(tag byte) (interface{}, error) {
 		return nil, newCodecError("readTypedList", "can't find list type %s", listTyp)
 	}
 
-	aryValue := reflect.MakeSlice(aryType, length, length)
+	if aryType.Kind() != reflect.Slice {
+		return nil, newCodecError("readTypedList", "type %s registered for list %s is not a slice", aryType, listTyp)
+	}
+
+	// a declared length is not trusted for allocation: beyond _listPreallocMax
+	// the list grows as its elements are actually read
+	prealloc := length
+	if prealloc > _listPreallocMax {
+		prealloc = _listPreallocMax
+	}
+	aryValue := reflect.MakeSlice(aryType, prealloc, prealloc)
 	holder := d.addDecoderRef(aryValue)
 
 	for j := 0; j < length || isVariableArr; j++ {
@@ -262,7 +275,7 @@ func (d *Decoder) readTypedList(tag byte) (interface{}, error) {
 			return nil, newCodecError("readTypedList", err)
 		}
 
-		if isVariableArr {
+		if isVariableArr || j >= prealloc {
 			aryValue = reflect.Append(aryValue, listElem(aryType.Elem(), item))
 			holder.change(aryValue)
 			continue
@@ -308,7 +321,11 @@ func (d *Decoder) readUntypedList(tag byte) (interface{}, error) {
 		return nil, nil
 	}
 
-	ary := make([]interface{}, length)
+	prealloc := length
+	if prealloc > _listPreallocMax {
+		prealloc = _listPreallocMax
+	}
+	ary := make([]interface{}, prealloc)
 	aryValue := reflect.ValueOf(ary)
 	holder := d.addDecoderRef(aryValue)
 
@@ -321,7 +338,7 @@ func (d *Decoder) readUntypedList(tag byte) (interface{}, error) {
 			return nil, newCodecError("readUntypedList", err)
 		}
 
-		if isVariableArr {
+		if isVariableArr || j >= prealloc {
 			aryValue = reflect.Append(aryValue, listElem(aryValue.Type().Elem(), it))
 			holder.change(aryValue)
 		} else {
